@@ -41,6 +41,10 @@ theorem req_pack (r : ReqId) (wf : WFReq r) : r.pack = .ok (Spec.reqOctets r) :=
   simp [bind, Except.bind, pure, Except.pure, Spec.reqOctets, ReqId.word0, PacketId.raw, Psc.raw, pidRaw, pscRaw,
     ar0 _ _ _ _ ht hs ha, ar1, ar2 _ _ hc, ar3]
 
+/-- **`RequestId.pack()` is the closed-form four octets** (`req_pack` under the property's name, so that
+    the axiom audit, which lists `^theorem C15_`, covers this load-bearing lemma) -/
+theorem C15_req_pack (r : ReqId) (wf : WFReq r) : r.pack = .ok (Spec.reqOctets r) := req_pack r wf
+
 /-- **the request id of a telecommand is exactly the first four octets of its space packet header** -/
 theorem C15_reqid_is_header (h : Sph) (wf : C01.WF h) :
     (ReqId.fromSph h).pack = .ok ((C01.Spec.octets h).take 4) := by
@@ -225,6 +229,51 @@ theorem C15_field_short (d : Bytes) (pfc : Nat) (h : d.length < roundDiv8 pfc) :
 /-- `PacketFieldEnum.__eq__` is equality of (pfc, value) -/
 theorem C15_field_eq (a b : Pfe) : a.beq b = true ↔ a = b := by
   cases a; cases b; simp [Pfe.beq]
+
+/-! ### Fields whose PFC is not a multiple of 8 (accepted by the constructor, e.g. pfc 12 → 2 octets)
+
+A decoder that is only told the width reconstructs pfc = 8 × width. For such a field the decoded
+object is therefore NOT `==` the original (`C15_field_eq`: `==` compares the PFC); what does hold
+for EVERY accepted PFC is: same value, same width, same octets. -/
+
+/-- the field a width-driven decoder returns for `f`: PFC normalised to 8 × width, same value -/
+def normField (f : Pfe) : Pfe := ⟨fieldWidth f * 8, f.val⟩
+
+theorem normField_width (f : Pfe) : fieldWidth (normField f) = fieldWidth f := by
+  simp [normField, fieldWidth, roundDiv8_mul]
+
+theorem normField_octets (f : Pfe) : Spec.fieldOctets (normField f) = Spec.fieldOctets f := by
+  simp only [Spec.fieldOctets, normField_width]; rfl
+
+theorem normField_wf (f : Pfe) (wf : WFField f) : WFField (normField f) ∧ ExactField (normField f) := by
+  refine ⟨?_, ?_⟩
+  · unfold WFField; rw [normField_width]; exact wf
+  · unfold ExactField; rw [normField_width]; rfl
+
+theorem normField_exact (f : Pfe) (ex : ExactField f) : normField f = f := by
+  cases f; simp only [ExactField] at ex; simp only [normField, Pfe.mk.injEq, and_true]; exact ex.symm
+
+/-- **round trip of a field for EVERY accepted PFC** (also one that is not 8 × width, e.g. 12):
+    decoding the packed field, whatever follows it, with the field's width returns a field with the
+    same VALUE and the same WIDTH, the PFC being normalised to 8 × width; that field re-packs to the
+    same octets; it is `==` the original exactly when the original PFC was already 8 × width -/
+theorem C15_field_roundtrip_any_pfc (f : Pfe) (wf : WFField f) (rest : Bytes) :
+    Pfe.unpack (Spec.fieldOctets f ++ rest) (fieldWidth f * 8) = .ok (normField f) ∧
+    (normField f).val = f.val ∧ fieldWidth (normField f) = fieldWidth f ∧
+    (normField f).pfc = fieldWidth f * 8 ∧
+    (normField f).pack = f.pack ∧ f.pack = .ok (Spec.fieldOctets f) ∧
+    ((normField f).beq f = true ↔ ExactField f) := by
+  obtain ⟨wn, en⟩ := normField_wf f wf
+  have h := C15_field_roundtrip (normField f) wn en rest
+  rw [normField_octets, normField_width] at h
+  have hp := (C15_field_pack f wf).2.1
+  have hpn := (C15_field_pack (normField f) wn).2.1
+  rw [normField_octets] at hpn
+  refine ⟨h, rfl, normField_width f, rfl, by rw [hp, hpn], hp, ?_⟩
+  rw [C15_field_eq]
+  exact ⟨fun e => by unfold ExactField; rw [← e, normField_width]; rfl, normField_exact f⟩
+
+example : normField ⟨12, 7⟩ = ⟨16, 7⟩ ∧ WFField ⟨12, 7⟩ ∧ (normField ⟨12, 7⟩).beq ⟨12, 7⟩ = false := by decide
 
 example : WFField ⟨16, 0xBEEF⟩ ∧ ExactField ⟨16, 0xBEEF⟩ ∧ WFField ⟨12, 7⟩ ∧ ¬ ExactField ⟨12, 7⟩ := by decide
 
@@ -628,6 +677,124 @@ theorem C15_report_end_to_end (apid sub count ver ref dst : Nat) (ts : Bytes) (p
     C15_report_roundtrip apid sub count ver ref dst ts p ha hc hsub hv hr hd hl wp ex hm sb eb hsb heb rest,
     C15_report_repack apid sub count ver ref dst ts p ha hc hsub hv hr hd hl wp ex hm sb eb hsb heb rest,
     (C15_report_eq_iff _ _ we we).2 rfl⟩
+
+/-! ### Reports whose step id / error code PFC is not a multiple of 8 -/
+
+/-- the parameter set a width-driven decoder returns: every PFC normalised to 8 × width -/
+def normParams (p : VParams) : VParams :=
+  ⟨p.reqId, p.stepId.map normField, p.failure.map (fun n => ⟨normField n.code, n.data⟩)⟩
+
+theorem normParams_sourceData (p : VParams) : Spec.sourceData (normParams p) = Spec.sourceData p := by
+  obtain ⟨r, step, fail⟩ := p
+  cases step <;> cases fail <;> simp [normParams, Spec.sourceData, Spec.noticeOctets, normField_octets]
+
+theorem normParams_wf (p : VParams) (wp : WFParams p) : WFParams (normParams p) ∧ ExactParams (normParams p) := by
+  obtain ⟨wr, ws, wn⟩ := wp
+  obtain ⟨r, step, fail⟩ := p
+  simp only at wr ws wn
+  refine ⟨⟨wr, ?_, ?_⟩, ⟨?_, ?_⟩⟩
+  · intro s hs
+    cases step with
+    | none => simp [normParams] at hs
+    | some s0 => simp only [normParams, Option.map_some, Option.some.injEq] at hs; subst hs; exact (normField_wf s0 (ws s0 rfl)).1
+  · intro n hn
+    cases fail with
+    | none => simp [normParams] at hn
+    | some n0 =>
+      simp only [normParams, Option.map_some, Option.some.injEq] at hn; subst hn
+      exact (normField_wf n0.code (wn n0 rfl)).1
+  · intro s hs
+    cases step with
+    | none => simp [normParams] at hs
+    | some s0 => simp only [normParams, Option.map_some, Option.some.injEq] at hs; subst hs; exact (normField_wf s0 (ws s0 rfl)).2
+  · intro n hn
+    cases fail with
+    | none => simp [normParams] at hn
+    | some n0 =>
+      simp only [normParams, Option.map_some, Option.some.injEq] at hn; subst hn
+      exact (normField_wf n0.code (wn n0 rfl)).2
+
+theorem normParams_matches (p : VParams) (sub : Nat) : Matches (normParams p) sub ↔ Matches p sub := by
+  obtain ⟨r, step, fail⟩ := p
+  cases step <;> cases fail <;> simp [normParams, Matches]
+
+theorem normParams_exact (p : VParams) (ex : ExactParams p) : normParams p = p := by
+  obtain ⟨exs, exn⟩ := ex
+  obtain ⟨r, step, fail⟩ := p
+  simp only at exs exn
+  cases step with
+  | none =>
+    cases fail with
+    | none => rfl
+    | some n => obtain ⟨c, d⟩ := n; simp [normParams, normField_exact c (exn _ rfl)]
+  | some s =>
+    cases fail with
+    | none => simp [normParams, normField_exact s (exs _ rfl)]
+    | some n => obtain ⟨c, d⟩ := n; simp [normParams, normField_exact s (exs _ rfl), normField_exact c (exn _ rfl)]
+
+/-- **round trip of a report for EVERY accepted PFC** (no `ExactParams`): decoding the packed report
+    (followed by anything) with matching widths returns the same telemetry fields, the same request
+    id, and step id / error code with the same VALUE and the same WIDTH — their PFC normalised to
+    8 × width (`normParams`) — and the same failure data; the decoded report re-packs to exactly the
+    same octets; it is `==` the original iff all PFCs of the original were already 8 × width.
+    (With pfc 12 the decoded step id is `PacketFieldEnum(16, v)` and `==` is False — in Python too.) -/
+theorem C15_report_roundtrip_any_pfc (apid sub count ver ref dst : Nat) (ts : Bytes) (p : VParams)
+    (ha : apid < 2048) (hc : count < 16384) (hsub : 1 ≤ sub ∧ sub ≤ 8) (hv : ver < 8) (hr : ref < 16)
+    (hd : dst < 65536) (hl : ts.length + (Spec.sourceData p).length ≤ 65527)
+    (wp : WFParams p) (hm : Matches p sub) (sb eb : Nat)
+    (hsb : ∀ s, p.stepId = some s → sb = fieldWidth s)
+    (heb : ∀ n, p.failure = some n → eb = fieldWidth n.code) (rest : Bytes) :
+    S1Tm.unpack (Spec.reportOctets apid sub count ver ref dst ts p ++ rest) ts.length sb eb
+      = .ok ⟨Spec.reportTm apid sub count ver ref dst ts p, normParams p⟩ ∧
+    (normParams p).reqId = p.reqId ∧
+    (∀ s, p.stepId = some s → ∃ s', (normParams p).stepId = some s' ∧ s'.val = s.val ∧
+        fieldWidth s' = fieldWidth s ∧ s'.pfc = fieldWidth s * 8) ∧
+    (p.stepId = none → (normParams p).stepId = none) ∧
+    (∀ n, p.failure = some n → ∃ n', (normParams p).failure = some n' ∧ n'.code.val = n.code.val ∧
+        fieldWidth n'.code = fieldWidth n.code ∧ n'.code.pfc = fieldWidth n.code * 8 ∧ n'.data = n.data) ∧
+    (p.failure = none → (normParams p).failure = none) ∧
+    (S1Tm.mk (Spec.reportTm apid sub count ver ref dst ts p) (normParams p)).pack
+      = .ok (Spec.reportOctets apid sub count ver ref dst ts p) ∧
+    ((S1Tm.mk (Spec.reportTm apid sub count ver ref dst ts p) (normParams p)).beq
+        ⟨Spec.reportTm apid sub count ver ref dst ts p, p⟩ = true ↔ ExactParams p) := by
+  obtain ⟨wpn, exn⟩ := normParams_wf p wp
+  have hsd := normParams_sourceData p
+  have hoct : Spec.reportOctets apid sub count ver ref dst ts (normParams p)
+      = Spec.reportOctets apid sub count ver ref dst ts p := by simp only [Spec.reportOctets, Spec.reportTm, hsd]
+  have htm : Spec.reportTm apid sub count ver ref dst ts (normParams p)
+      = Spec.reportTm apid sub count ver ref dst ts p := by simp only [Spec.reportTm, hsd]
+  have h := C15_report_roundtrip apid sub count ver ref dst ts (normParams p) ha hc hsub hv hr hd (by rw [hsd]; exact hl)
+    wpn exn ((normParams_matches p sub).2 hm) sb eb
+    (by
+      intro s hs
+      cases hp : p.stepId with
+      | none => simp [normParams, hp] at hs
+      | some s0 =>
+        simp only [normParams, hp, Option.map_some, Option.some.injEq] at hs
+        subst hs; rw [normField_width]; exact hsb s0 hp)
+    (by
+      intro n hn
+      cases hp : p.failure with
+      | none => simp [normParams, hp] at hn
+      | some n0 =>
+        simp only [normParams, hp, Option.map_some, Option.some.injEq] at hn
+        subst hn; simp only; rw [normField_width]; exact heb n0 hp) rest
+  rw [hoct, htm] at h
+  have wf := reportTm_wf apid sub count ver ref dst ts p ha hc (by omega) hv hr hd hl
+  refine ⟨h, rfl, ?_, ?_, ?_, ?_, ?_, ?_⟩
+  · intro s hs; exact ⟨normField s, by simp [normParams, hs], rfl, normField_width s, rfl⟩
+  · intro hs; simp [normParams, hs]
+  · intro n hn; exact ⟨⟨normField n.code, n.data⟩, by simp [normParams, hn], rfl, normField_width n.code, rfl, rfl⟩
+  · intro hn; simp [normParams, hn]
+  · exact C03.C03_pack_exact _ wf
+  · have we : WFEq ⟨Spec.reportTm apid sub count ver ref dst ts p, p⟩ := ⟨wf.1, wf.2.1, wp.1⟩
+    have wen : WFEq ⟨Spec.reportTm apid sub count ver ref dst ts p, normParams p⟩ := ⟨wf.1, wf.2.1, wp.1⟩
+    rw [C15_report_eq_iff _ _ wen we]
+    constructor
+    · intro e
+      have e2 : normParams p = p := by injection e
+      rw [← e2]; exact exn
+    · intro ex; rw [normParams_exact p ex]
 
 /-- what the decoder guarantees for ANY accepted octet string, with any configured widths: the
     telemetry part is what the generic decoder returns, the subservice is one of 1..8, the decoded
